@@ -2,7 +2,7 @@
 From Coq Require Import ZArith List Bool String.
 From Coq Require Extraction.
 From Coq Require Import ExtrOcamlBasic ExtrOcamlString.
-From HV Require Import Gen.GenCutWarn Gen.GenLogFilter Gen.GenRunTest Spec.PanicSpec Model.RunnerModel Model.ReportModel.
+From HV Require Import Gen.GenCutWarn Gen.GenLogFilter Gen.GenRunTest Gen.GenFrontierCls Spec.PanicSpec Model.RunnerModel Model.ReportModel Model.InvCutModel.
 Import ListNotations.
 Open Scope Z_scope.
 
@@ -46,9 +46,83 @@ Definition c10_inv_warned (a : list Z) : list Z :=
   | _ => []
   end.
 
+(* ---- invariant frontier (Model/InvCutModel.v).  Encodings as in ExC03.v: err 0 ENone, 1 ERevert, 2 EEvm, 3 EFail,
+   4 EHalmos; byte -1 = symbolic; call tree in preorder: err, nsubs, subtrees... *)
+Definition err_of (z : Z) : errkind :=
+  if z =? 0 then ENone else if z =? 1 then ERevert else if z =? 2 then EEvm else if z =? 3 then EFail else EHalmos.
+Definition dec_bytes (l : list Z) : list sbyte := map (fun z => if z <? 0 then BS (- z) else BC z) l.
+Definition take (n : Z) (l : list Z) : list Z * list Z := (firstn (Z.to_nat n) l, skipn (Z.to_nat n) l).
+
+Fixpoint parse_tree (fuel : nat) (l : list Z) : ctree * list Z :=
+  match fuel with
+  | O => (CNode ENone [], [])
+  | S f =>
+      match l with
+      | e :: n :: r => let '(subs, r') := parse_forest f (Z.to_nat n) r in (CNode (err_of e) subs, r')
+      | _ => (CNode ENone [], [])
+      end
+  end
+with parse_forest (fuel : nat) (n : nat) (l : list Z) : list ctree * list Z :=
+  match fuel with
+  | O => ([], [])
+  | S f =>
+      match n with
+      | O => ([], l)
+      | S k =>
+          let '(t, r) := parse_tree f l in
+          let '(ts, r') := parse_forest f k r in
+          (t :: ts, r')
+      end
+  end.
+
+(* [is_stuck; has_error; panic (0 False / 1 True / 2 raises); fail_set; probe_reported; visited] -> [effects] *)
+Definition c10_frontier_step (a : list Z) : list Z :=
+  match a with
+  | [st; he; p; fs; pr; v] =>
+      [frontier_step (z2b st) (z2b he) (if p =? 2 then PRaise else if p =? 1 then PTrue else PFalse) (z2b fs) (z2b pr) (z2b v)]
+  | _ => []
+  end.
+
+(* result states: tree, has_data, datalen, bytes..., probe_reported, visited *)
+Fixpoint parse_tstates (n : nat) (l : list Z) : list (tstate unit) :=
+  match n with
+  | O => []
+  | S k =>
+      let '(t, r) := parse_tree (S (List.length l)) l in
+      match r with
+      | hd :: dl :: r1 =>
+          let '(bs, r2) := take dl r1 in
+          match r2 with
+          | pr :: v :: r3 =>
+              mkTstate (mkLeaf t (if z2b hd then Some (dec_bytes bs) else None) tt) (z2b pr) (z2b v) :: parse_tstates k r3
+          | _ => []
+          end
+      | _ => []
+      end
+  end.
+
+Definition nats (l : list nat) : list Z := Z.of_nat (List.length l) :: map Z.of_nat l.
+
+(* [ncodes; codes...; nstates; states...] -> [raised at (-1: no); n; errors...; n; probes...; n; next...] *)
+Definition c10_frontier_run (a : list Z) : list Z :=
+  match a with
+  | nc :: r =>
+      let '(codes, r1) := take nc r in
+      match r1 with
+      | ns :: r2 =>
+          let fr := frontier_run unit codes (parse_tstates (Z.to_nat ns) r2) in
+          (match f_raised fr with Some j => Z.of_nat j | None => -1 end)
+            :: nats (f_errors fr) ++ nats (f_probes fr) ++ nats (f_next fr)
+      | _ => []
+      end
+  | _ => []
+  end.
+
 Definition table : list (string * (list Z -> list Z)) :=
   [ ("c10_depth_session"%string, c10_depth_session);
     ("c10_depth_cut"%string, c10_depth_cut);
-    ("c10_inv_warned"%string, c10_inv_warned) ].
+    ("c10_inv_warned"%string, c10_inv_warned);
+    ("c10_frontier_step"%string, c10_frontier_step);
+    ("c10_frontier_run"%string, c10_frontier_run) ].
 
 Extraction "_build/C10/entries.ml" table.
